@@ -10,7 +10,7 @@ def main():
     from mbv import sampler_engine as E
 
     cfg = json.load(open(sys.argv[1]))
-    obs = E.run_real(cfg, signal_dir=sys.argv[3])
+    obs = E.run_real(cfg, signal_dir=None if sys.argv[3] == "-" else sys.argv[3])
     json.dump(obs, open(sys.argv[2], "w"))
 
 
